@@ -319,7 +319,13 @@ Fixpoint c04_scan (c : cfg) (i : nat) (kept : list (Z * minput)) (prev : obs) (t
                             | EIncoming m => beq_bytes (mi_type m) T_SEQRESET && match mi_newseq m with FVal q => k <? q | _ => false end
                             | _ => true
                             end in
-              if negb jumped && (ob_tgt prev <=? k) && (k <? ob_tgt o) && negb (existsb (Z.eqb k) (stash_keys (ob_st o))) then
+              (* ... or with a kept SequenceReset delivered in this step that starts below k and ends beyond it *)
+              let jumped_by_kept := existsb (fun e0 => (ob_tgt prev <=? fst e0) && (fst e0 <? k) && beq_bytes (mi_type (snd e0)) T_SEQRESET
+                                                      && match mi_newseq (snd e0) with FVal q => k <? q | _ => false end) kept in
+              (* ... or possibly with a kept message whose content the scan does not know (it arrived through the buffer) *)
+              let jumped_unknown := existsb (fun n => (ob_tgt prev <=? n) && (n <? k) && negb (existsb (fun e0 => fst e0 =? n) kept))
+                                            (stash_keys (ob_st prev)) in
+              if negb jumped && negb jumped_by_kept && negb jumped_unknown && (ob_tgt prev <=? k) && (k <? ob_tgt o) && negb (existsb (Z.eqb k) (stash_keys (ob_st o))) then
                 match kept_lookup k kept with
                 | Some m => if negb (is_admin (mi_type m)) && msg_passes_header c k m
                                && match mi_valid m with VAccept => true | _ => false end
@@ -333,13 +339,15 @@ Fixpoint c04_scan (c : cfg) (i : nat) (kept : list (Z * minput)) (prev : obs) (t
            (match e with
             | EIncoming m => match mi_seq m with
                              | FVal n => (* kept (or replacing what was kept) under n: a gated message above the expected number *)
-                                         if existsb (Z.eqb n) (stash_keys (ob_st o)) && (ob_tgt prev <? n) && gated_type (mi_type m)
-                                         then (n, m) :: kept else kept
-                             | _ => kept
+                                         let kept0 := filter (fun e0 => existsb (Z.eqb (fst e0)) (stash_keys (ob_st o))) kept in
+                                         if existsb (Z.eqb n) (stash_keys (ob_st o)) && (ob_tgt prev <? n)
+                                            && (gated_type (mi_type m) || (beq_bytes (mi_type m) T_SEQRESET && is_gapfill m))
+                                         then (n, m) :: kept0 else kept0
+                             | _ => filter (fun e0 => existsb (Z.eqb (fst e0)) (stash_keys (ob_st o))) kept
                              end
             | EDeliver => (* a buffered frame was processed: what is kept under the surviving keys is no longer known *)
                           filter (fun e0 => negb (existsb (Z.eqb (fst e0)) (stash_keys (ob_st o)))) kept
-            | _ => kept
+            | _ => filter (fun e0 => existsb (Z.eqb (fst e0)) (stash_keys (ob_st o))) kept
             end) o r
   end.
 Definition c04_check (c : cfg) (tr : list (event * obs)) : list failure := c04_scan c O [] (init_obs c) tr.
@@ -356,7 +364,7 @@ Definition is_initiator (c : cfg) : bool := match c_role c with Initiator => tru
    counters to 1; 707 reply to a Logon carrying 141=Y does not echo the flag as number 1 *)
 Definition logon_resets (m : omsg) : bool := is_type T_LOGON m && opt_beq (field_of 141 (o_body m)) (B "Y").
 
-Fixpoint c07_scan (c : cfg) (i : nat) (prev : obs) (tr : list (event * obs)) : list failure :=
+Fixpoint c07_scan (c : cfg) (i : nat) (sent141 : bool) (prev : obs) (tr : list (event * obs)) : list failure :=
   match tr with
   | [] => []
   | (e, o) :: r =>
@@ -408,9 +416,26 @@ Fixpoint c07_scan (c : cfg) (i : nat) (prev : obs) (tr : list (event * obs)) : l
                else [])
        | _ => []
        end)
-      ++ c07_scan c (S i) o r
+      (* 708: any Logon the engine transmits with ResetSeqNumFlag=Y is number 1 (whatever made it send one) *)
+      ++ (if forallb (fun w => negb (logon_resets w) || (o_seq w =? 1)) (ob_wire o) then [] else [(i, 708)])
+      (* 709: a Logon carrying ResetSeqNumFlag=Y that is accepted resets the store, unless it echoes a reset Logon WE sent on
+         this connection (sent141) *)
+      ++ (match e with
+          | EIncoming m =>
+              if beq_bytes (mi_type m) T_LOGON && match mi_reset m with FVal true => true | _ => false end
+                 && (ob_inbuf prev =? 0) && match ob_st prev with ShLogon => true | _ => false end
+                 && existsb (fun x => match x with CbOnLogon => true | _ => false end) (ob_cbs o)
+                 && negb sent141 && negb (has_reset (ob_cbs o))
+              then [(i, 709)] else []
+          | _ => []
+          end)
+      ++ c07_scan c (S i)
+           (match e with
+            | EConnect => if sh_connected (ob_st prev) then sent141 else existsb logon_resets (ob_wire o)
+            | _ => sent141 || existsb logon_resets (ob_wire o)
+            end) o r
   end.
-Definition c07_check (c : cfg) (tr : list (event * obs)) : list failure := c07_scan c O (init_obs c) tr.
+Definition c07_check (c : cfg) (tr : list (event * obs)) : list failure := c07_scan c O false (init_obs c) tr.
 
 (* ---------------------------------------------------------------------------------------------- *)
 (* C08: traffic only inside a completed logon.  Automaton over the chronological callbacks and wire of one connection. *)
@@ -515,7 +540,7 @@ Fixpoint c20_scan (c : cfg) (i : nat) (prev : obs) (tr : list (event * obs)) : l
                  end
             else [])
            ++ (if sh_is_pending (ob_st prev) && (ob_inbuf prev =? 0) && sh_logged_on (ob_st o)
-               then (if sh_is_pending (ob_st o) then [(i, 2005)] else [])
+               then (if sh_is_pending (ob_st o) && negb (existsb (is_type T_TESTREQ) (ob_wire o)) then [(i, 2005)] else [])
                     ++ match sh_unwrap (ob_st prev), sh_unwrap (ob_st o) with
                        | ShResend true keys cur _, ShResend _ keys' _ _ =>
                            if subset_keys (filter (fun k => ob_tgt o <? k) keys) keys'
@@ -529,6 +554,11 @@ Fixpoint c20_scan (c : cfg) (i : nat) (prev : obs) (tr : list (event * obs)) : l
                   && existsb (fun x => match x with CbOnLogon => true | _ => false end) (ob_cbs o)
                then match mi_hbint m with FVal h => if ob_hb o =? h then [] else [(i, 2006)] | _ => [] end
                else [])
+       | EDeliver =>
+           (* a buffered frame is processed (and it is the only one): the pending disconnect is cancelled as well *)
+           if sh_is_pending (ob_st prev) && (ob_inbuf prev =? 1) && (ob_inbuf o =? 0) && sh_logged_on (ob_st o) && sh_is_pending (ob_st o)
+              && negb (existsb (is_type T_TESTREQ) (ob_wire o))
+           then [(i, 2005)] else []
        | ETimeout NeedHeartbeat =>
            if sh_logged_on (ob_st prev) then
              if sh_is_pending (ob_st prev) then (if Nat.eqb (length (ob_wire o)) 0 then [] else [(i, 2002)])
